@@ -599,14 +599,18 @@ func vf10MeekRun(sc *vf10Script) (res *vf10Result) {
 			res.hist = history()
 		}
 	}()
-	// wedge verdicts are only given if the worker is not in its 30 s retry sleep
+	// A wedge whose cause is the worker's 30 s retry sleep gets its own
+	// signature: scripts containing a status other than 200 never get here
+	// (they are recognised with the client's own parser, which reads a stream
+	// left to right, so the client cannot see a status the pre-parse did not
+	// see), hence no answer that was sent can have put the worker to sleep.
 	wedged := func(sig, format string, a ...any) {
 		own, sleeping := vf10Stacks()
-		if sleeping {
-			res.skipped = "worker is in the non-200 retry sleep (not predicted by the pre-parse)"
-			return
-		}
 		msg := fmt.Sprintf(format, a...)
+		if sleeping {
+			sig = "c10-meek-retry-sleep-without-non-200"
+			msg += "\nthe worker is in its 30 s retry sleep although no answer with a status other than 200 was sent"
+		}
 		if len(own) > 0 {
 			msg += "\nconnection goroutines:\n" + strings.Join(own, "\n\n")
 		}
@@ -890,11 +894,11 @@ func vf10MeekRun(sc *vf10Script) (res *vf10Result) {
 		return len(own) == 0
 	}) {
 		own, sleeping := vf10Stacks()
+		sig := "c10-meek-goroutine-leak"
 		if sleeping {
-			res.skipped = "worker is in the non-200 retry sleep (not predicted by the pre-parse)"
-			return res
+			sig = "c10-meek-retry-sleep-without-non-200"
 		}
-		fail("c10-meek-goroutine-leak", "%d goroutine(s) of the connection are still alive %s after Close (server side ended before):\n%s", len(own), vf10MeekBound(), strings.Join(own, "\n\n"))
+		fail(sig, "%d goroutine(s) of the connection are still alive %s after Close (server side ended before):\n%s", len(own), vf10MeekBound(), strings.Join(own, "\n\n"))
 		return res
 	}
 	if _, _, late, _ := srv.counters(); late > vf10MeekDialBound {
